@@ -223,6 +223,98 @@ func c06(c *an.Ctx) {
 		})
 	})
 
+	c.Check("R-PAIR", "runOnService sends one key object per parent, in the parents' order, and hands the service's answer list back unchanged (entry i belongs to parent i, no object is shared between parents)", 3, func(o *an.O) {
+		fn := c.NeedFunc(fed, "(*Executor).runOnService")
+		var keysParam *ssa.Parameter
+		for _, pa := range fn.Params {
+			if pa.Type().String() == "[]interface{}" {
+				keysParam = pa
+			}
+		}
+		an.Need(keysParam != nil, "the keys parameter of runOnService")
+		var sent *ssa.MapUpdate
+		an.Instrs(fn, func(i ssa.Instruction) {
+			if mu, ok := i.(*ssa.MapUpdate); ok {
+				if k, ok := an.ConstString(an.StripConv(mu.Key)); ok && k == "keys" {
+					sent = mu
+				}
+			}
+		})
+		if sent == nil {
+			o.Fail(p.Pos(fn.Pos()), "runOnService no longer passes the parents' keys to the federated field")
+			return
+		}
+		o.Site(sent)
+		// (a nil alternative comes from the error return of an inlined helper)
+		var ms *ssa.MakeSlice
+		ok := true
+		for _, leaf := range phiLeaves(an.StripConv(sent.Value)) {
+			if cst, isC := leaf.(*ssa.Const); isC && cst.IsNil() {
+				continue
+			}
+			m, isMake := leaf.(*ssa.MakeSlice)
+			if !isMake || (ms != nil && ms != m) {
+				ok = false
+			}
+			ms = m
+		}
+		if ms == nil {
+			ok = false
+		}
+		if !ok || an.Expr(ms.Len) != "len("+keysParam.Name()+")" {
+			o.FailAt(sent, "the key list sent to the service is %s, not a list with one entry per parent key: the service's answers can no longer be matched to the parents by position", an.Short(an.Expr(sent.Value), 60))
+		} else {
+			nStore := 0
+			for _, r := range *ms.Referrers() {
+				switch x := r.(type) {
+				case *ssa.IndexAddr:
+					for _, r2 := range *x.Referrers() {
+						st, ok := r2.(*ssa.Store)
+						if !ok || st.Addr != ssa.Value(x) {
+							continue
+						}
+						o.Site(st)
+						h := an.LoopHeaderOf(st)
+						if !an.IsRangeIndex(x.Index) || an.LoopSliceOf(x.Index) != ssa.Value(keysParam) || h == nil || !everyIteration(fn, h.Succs[0], st.Block(), h) {
+							o.FailAt(st, "the key object of a parent is stored at %s, not at the parent's own position on every iteration over the keys", an.Expr(x.Index))
+						} else {
+							nStore++
+						}
+					}
+				case *ssa.Call:
+					if b, ok := x.Call.Value.(*ssa.Builtin); ok && b.Name() == "append" {
+						o.FailAt(x, "the key list is grown or filtered after being sized to the parents")
+					}
+				}
+			}
+			if nStore == 0 {
+				o.FailAt(ms, "no store of a parent's key object at the parent's position")
+			}
+		}
+		for _, e := range an.Exits(fn, false) {
+			ret, ok := e.(*ssa.Return)
+			if !ok || len(ret.Results) != 3 || !isConstNil(an.ResultAt(ret, 2)) {
+				continue
+			}
+			o.Site(e)
+			v := an.StripConv(an.ResultAt(ret, 0))
+			okv := false
+			switch x := v.(type) {
+			case *ssa.Const:
+				okv = x.IsNil()
+			case *ssa.Extract:
+				_, okv = x.Tuple.(*ssa.TypeAssert)
+			case *ssa.TypeAssert:
+				okv = true
+			case *ssa.Slice:
+				_, okv = x.X.(*ssa.Alloc) // []interface{}{res} / []interface{}{}
+			}
+			if !okv {
+				o.FailAt(e, "runOnService returns %s instead of the service's answer list: entries are re-arranged or shared between parents, and results stitched into one parent show up in (or collide with) another", an.Short(an.Expr(v), 60))
+			}
+		}
+	})
+
 	c.Check("R-GUARD", "planObject: local iff selected service == current service; other selections go to that service's sub-plan; _federation key added when another service is involved", 4, func(o *an.O) {
 		fn := c.NeedFunc(fed, "(*Planner).planObject")
 		service := fn.Params[3].Name()
